@@ -305,8 +305,17 @@ func (w *WAL) mutateStateLocked(tx stateTxn) error {
 // data within it will be performed to free old files that may have been
 // truncated concurrently.
 func (w *WAL) acquireState() (*state, func()) {
-	s := w.loadState()
-	return s, s.acquire()
+	for {
+		s := w.loadState()
+		release := s.acquire()
+		// The state may have been replaced (and its finalizer run, closing or
+		// deleting its files) between the load and the acquire. Only a state that
+		// is still current after we hold a reference is safe to use.
+		if w.loadState() == s {
+			return s, release
+		}
+		release()
+	}
 }
 
 // newSegment creates a types.SegmentInfo with the passed ID and baseIndex, filling in
@@ -331,6 +340,9 @@ func (w *WAL) FirstIndex() (uint64, error) {
 	}
 	s, release := w.acquireState()
 	defer release()
+	if s.closed() {
+		return 0, ErrClosed
+	}
 	return s.firstIndex(), nil
 }
 
@@ -341,6 +353,9 @@ func (w *WAL) LastIndex() (uint64, error) {
 	}
 	s, release := w.acquireState()
 	defer release()
+	if s.closed() {
+		return 0, ErrClosed
+	}
 	return s.lastIndex(), nil
 }
 
@@ -351,10 +366,18 @@ func (w *WAL) GetLog(index uint64, log *raft.Log) error {
 	}
 	s, release := w.acquireState()
 	defer release()
+	if s.closed() {
+		return ErrClosed
+	}
 	w.metrics.IncrementCounter("log_entries_read", 1)
 
 	raw, err := s.getLog(index)
 	if err != nil {
+		if cerr := w.checkClosed(); cerr != nil {
+			// Segment files are shared between successive states, so Close may
+			// have closed the file under us even though we hold an older state.
+			return cerr
+		}
 		return err
 	}
 	w.metrics.IncrementCounter("log_entry_bytes_read", uint64(len(raw.Bs)))
@@ -384,6 +407,12 @@ func (w *WAL) StoreLogs(logs []*raft.Log) error {
 	// Ensure queued rotation has completed before us if we raced with it for
 	// write lock.
 	w.awaitRotationLocked()
+
+	// Close sets the closed flag before it takes writeMu, so now that we hold
+	// the lock either we see the flag or Close has not replaced the state yet.
+	if err := w.checkClosed(); err != nil {
+		return err
+	}
 
 	s, release := w.acquireState()
 	defer release()
@@ -492,6 +521,11 @@ func (w *WAL) DeleteRange(min uint64, max uint64) error {
 	// write lock.
 	w.awaitRotationLocked()
 
+	// See StoreLogs: re-check now that we hold the lock.
+	if err := w.checkClosed(); err != nil {
+		return err
+	}
+
 	s, release := w.acquireState()
 	defer release()
 
@@ -542,7 +576,14 @@ func (w *WAL) Set(key []byte, val []byte) error {
 		return err
 	}
 	w.metrics.IncrementCounter("stable_sets", 1)
-	return w.metaDB.SetStable(key, val)
+	if err := w.metaDB.SetStable(key, val); err != nil {
+		if cerr := w.checkClosed(); cerr != nil {
+			// Close raced with us and closed the meta store under our feet.
+			return cerr
+		}
+		return err
+	}
+	return nil
 }
 
 // Get implements raft.StableStore
@@ -551,7 +592,15 @@ func (w *WAL) Get(key []byte) ([]byte, error) {
 		return nil, err
 	}
 	w.metrics.IncrementCounter("stable_gets", 1)
-	return w.metaDB.GetStable(key)
+	val, err := w.metaDB.GetStable(key)
+	if err != nil {
+		if cerr := w.checkClosed(); cerr != nil {
+			// Close raced with us and closed the meta store under our feet.
+			return nil, cerr
+		}
+		return nil, err
+	}
+	return val, nil
 }
 
 // SetUint64 implements raft.StableStore. We assume the same key space as Set
@@ -936,7 +985,11 @@ func (w *WAL) Close() error {
 	defer w.writeMu.Unlock()
 
 	// It doesn't matter if there is a rotation scheduled because runRotate will
-	// exist when it sees we are closed anyway.
+	// exist when it sees we are closed anyway. A writer may already be waiting
+	// for that rotation though: release it, it will see that we are closed.
+	if w.awaitRotate != nil {
+		close(w.awaitRotate)
+	}
 	w.awaitRotate = nil
 	// Awake and terminate the runRotate
 	close(w.triggerRotate)
